@@ -64,6 +64,7 @@ MUTANTS = {
         ('send_order_wrong_kind', r'channel_send_order\.push\(ChannelOrder::Reliable\(channel_config\.channel_id\)\);', 'channel_send_order.push(ChannelOrder::Unreliable(channel_config.channel_id));'),
     ],
     'U19': [
+        ('oldest_entry_overrides_free_slot', r'if !empty_entry && e\.time < min \{', 'if e.time < min {'),
         ('token_reuse_check_after_full_check', r'if !self\.find_or_add_connect_token_entry\(connect_token_entry\) \{', 'if !self.find_or_add_connect_token_entry(connect_token_entry) && false {'),
         ('expiry_off_by_one', r'if self\.current_time\.as_secs\(\) >= expire_timestamp \{', 'if self.current_time.as_secs() > expire_timestamp + 1 {'),
         ('challenge_not_matched', r'if challenge_token\.client_id != pending\.client_id \|\| challenge_token\.user_data != pending\.user_data \{', 'if false {'),
@@ -114,6 +115,9 @@ MUTANTS = {
         ('step_drops_invariant', r'lemma_rloop_step\(pre, post, seq0, avail0, steps, channel_id, message_id, um, current_time, resend_time\);', ''),
     ],
     'U16': [
+        ('record_skips_first_id', r'messages\.iter\(\)\.map\(', 'messages.iter().skip(1).map('),
+        ('slice_record_wrong_index', r'slice_index: slice\.slice_index,', 'slice_index: slice.slice_index / 2,'),
+        ('record_filed_under_next_sequence', r'(Packet::SmallUnreliable \{ sequence, \.\. \} => \{\s+self\.sent_packets\.insert\(\s+)\*sequence,', r'\1*sequence + 1,'),
         ('budget_doubled', r'let mut available_bytes = self\.available_bytes_per_tick;', 'let mut available_bytes = self.available_bytes_per_tick * 2;'),
         ('ack_sequence_not_advanced', r'self\.packet_sequence \+= 1;(\s+)packets\.push\(ack_packet\);', r'\1packets.push(ack_packet);'),
         ('buffer_too_small', r'let mut buffer = \[0u8; 1400\];', 'let mut buffer = [0u8; 1200];'),
